@@ -25,7 +25,9 @@ def deep(k, cls, msg):
 HDR = 'Traceback (most recent call last):'
 EXC = {  # name in doctest source -> printed (qualified) name
     'ValueError': 'ValueError', 'KeyError': 'KeyError', 'MyErr': 'MyErr', 'QualErr': 'pkg.mod.QualErr'}
-MSGS = ['bad', '', 'a: b', 'l1\nl2', 'x ... y', 'it is 3.5']
+MSGS = ['bad', '', 'a: b', 'l1\nl2', 'x ... y', 'it is 3.5',
+        # a message that quotes another traceback
+        'worker failed:\nTraceback (most recent call last):\nKeyError: 1', 'see Traceback (most recent call last): above']
 
 LINE_SYMS = [HDR, HDR + '  ', HDR + ' junk', 'Traceback (innermost last):', '  File "x", line 1, in f', 'Err: msg',
              'mod.Err: a: b', '...', '', '    word', '_x', '1x', '-x', 'Traceback (most recent call last)']
@@ -67,6 +69,8 @@ def expected(form, flags, cls, msg):
     """(verdict, failure kind) by construction; None = not asserted (only correspondence)"""
     ied = 'IGNORE_EXCEPTION_DETAIL' in flags
     noell = '-ELLIPSIS' in flags
+    if form == 'finalonly' and ('\n' + HDR) in ('\n' + msg):
+        return None        # the message itself holds a header line: the want IS a traceback block (for the quoted exception); correspondence only
     if form in ('none', 'nontraceback', 'finalonly'):
         return ('fail', 'exception')
     if form in ('exact', 'stack'):
